@@ -10,7 +10,7 @@ ENGINE_B = [{'template': 't_impl', 'kinds': ['addrcall_'], 'max_quick': 14, 'max
                       [8, 1, 0x101000000, 0, 1, 3, 0, 2, 3, 2, 3, 0], [8, 1, 0x7FFFFFFFFFFFFFF0, 0, 1, 0, 0, 0, 0, 0, 0, 1]]},
             # impl block next to inherited / virtual functions: every declared wrapper is there and calls its own address
             {'template': 't_implname', 'kinds': ['addrcall_'], 'max_quick': 4, 'max_thorough': 16,
-             'fixed': [[8, 0x140001000, 0x140002000, 2, 0, 3, 4, 1, 2], [8, 4096, 8192, 2, 0, 0, 3, 1, 0]]},
+             'fixed': [[8, 0x140001000, 0x140002000, 2, 0, 3, 4, 1, 2, 0], [8, 4096, 8192, 2, 0, 0, 3, 1, 0, 0], [8, 4096, 8192, 2, 0, 0, 0, 1, 0, 1]]},
             # longer parameter lists: 4..6 parameters of mixed width in the emitted wrapper
             {'template': 't_impl6', 'kinds': ['addrcall_'], 'max_quick': 12, 'max_thorough': 32, 'abi': True,
              'fixed': [[8, 0x140003000, 1, 6, 0, 1, 2, 3, 1, 0, 2, 0, 0], [8, 0x7FF712345678, 0, 6, 1, 0, 3, 2, 0, 1, 1, 0, 0], [8, 4096, 2, 5, 3, 3, 0, 1, 2, 0, 0, 0, 0],
@@ -65,7 +65,7 @@ def slices(tier, rng):
             out.append(Slice('%s-ps%d' % (sub, ps), 't_impl', 12, lambda a, ps=ps, sub=sub: assume(a, ps, sub),
                              opts={'must_reach': ['ok', 'err']}))
         out.append(Slice('six-ps%d' % ps, 't_impl6', 13, lambda a, ps=ps, tier=tier: six_assume(a, ps, tier), opts={'must_reach': ['ok', 'err']}))
-        out.append(Slice('names-ps%d' % ps, 't_implname', 9, lambda a, ps=ps: names_assume(a, ps), opts={'must_reach': ['ok', 'err']}))
+        out.append(Slice('names-ps%d' % ps, 't_implname', 10, lambda a, ps=ps: names_assume(a, ps), opts={'must_reach': ['ok', 'err']}))
     return out
 
 
@@ -116,7 +116,7 @@ def six_queries(a, leaf, py):
 # ---- t_implname: declared functions next to names that are already taken
 def names_assume(a, ps):
     return [a[0] == ps, z3.UGE(a[3], 1), z3.ULE(a[3], 2), z3.ULE(a[4], 1), z3.ULE(a[5], 3), z3.ULE(a[6], 4), z3.ULE(a[7], 2), z3.ULE(a[8], 2),
-            z3.Implies(a[3] == 1, z3.And(a[4] == 0, a[2] == 0, a[8] == 0))]
+            z3.Implies(a[3] == 1, z3.And(a[4] == 0, a[2] == 0, a[8] == 0)), z3.ULE(a[9], 1), z3.Implies(a[9] != 0, a[4] == 0)]
 
 
 def names_taken(a):
@@ -130,7 +130,7 @@ def names_taken(a):
 def names_acceptable(a):
     g0, g1 = names_taken(a)
     second = z3.Implies(a[3] == 2, z3.And(a[4] == 0, z3.Not(g1), a[2] >= 0))
-    return z3.And(z3.Not(g0), a[1] >= 0, second)
+    return z3.And(z3.Or(z3.Not(g0), a[9] != 0), a[1] >= 0, second)        # an internal `_g0` clashes with nothing
 
 
 def names_queries(a, leaf, py):
@@ -150,10 +150,11 @@ def names_queries(a, leaf, py):
         for k, r in RECV.items():
             if recv != r: out.append(z3.And(when, recv_param == k))
         return out
-    bad += one('g0', a[1], a[7], z3.BoolVal(True))
+    bad += one('g0', a[1], a[7], a[9] == 0)
+    bad += one('_g0', a[1], a[7], a[9] != 0)
     bad += one('g1', a[2], a[8], z3.And(a[3] == 2, a[4] == 0))
     # nothing else next to them but what the base contributes (one forwarder per public base function)
-    others = [x for x in it.functions if x.name not in ('g0', 'g1') or x.body[0] != 'address']
+    others = [x for x in it.functions if x.name not in ('g0', '_g0', 'g1') or x.body[0] != 'address']
     n_inj = z3.If(z3.Or(a[6] == 1, a[6] == 2, a[6] == 4), z3.BitVecVal(1, 64), z3.BitVecVal(0, 64))
     bad.append(n_inj != len(others))
     bad.append(z3.And(a[3] == 1, z3.BoolVal(len(it.functions) - len(others) != 1)))
@@ -238,7 +239,7 @@ def describe(template, args):
         out = '// pointer size %d\n' % a[0]
         if a[6]: out += 'type Bz { pub x: u32 }\nimpl Bz { #[address(256)] %s(&self) -> u32; }\n' % bn.get(a[6], '?')
         out += 'type T { %s%s pub a: u32 }\n' % ('vftable { pub fn %s(&self); } ' % vn.get(a[5], '?') if a[5] else '', '#[base] pub b: Bz,' if a[6] else 'pub a2: u32,')
-        out += 'impl T {\n    #[address(%d)] pub fn g0(%s) -> u32;\n' % (a[1], ', '.join(x for x in (R.get(a[7], ''), 'a0: u32') if x))
+        out += 'impl T {\n    #[address(%d)] pub fn %s(%s) -> u32;\n' % (a[1], '_g0' if len(a) > 9 and a[9] else 'g0', ', '.join(x for x in (R.get(a[7], ''), 'a0: u32') if x))
         if a[3] >= 2: out += '    #[address(%d)] pub fn %s(%s) -> u64;\n' % (a[2], 'g0' if a[4] else 'g1', R.get(a[8], ''))
         return out + '}'
     def s64(v):
